@@ -238,7 +238,6 @@ Variable p a : nat.
 Variable tol : R.
 Hypothesis Hs : lsorted l.
 Hypothesis Hp : (1 <= p)%nat.
-Hypothesis Ha : (1 <= a)%nat.
 Hypothesis Hlen : (2 * p <= length l)%nat.
 Hypothesis Hopen : open_knots l p.
 Hypothesis Htol : 0 < tol.
@@ -267,8 +266,10 @@ Qed.
 (* 1. what raise_order builds: order p+a, the sorted union of the old knots and a copies of every distinct knot *)
 Theorem raise_order_basis : b' = mkBasis (p + a) L 0.
 Proof.
-  unfold b', basis_raise_order. destruct (Nat.eqb_spec a 0); [lia|]. cbv zeta. unfold b at 2 3 4. cbn [b_per1 b_order b_knots Nat.eqb].
-  fold b. fold spans. rewrite (chain_eq l spans a Hs). reflexivity.
+  unfold b', basis_raise_order. destruct (Nat.eqb_spec a 0) as [E|E].
+  - rewrite E. cbn [chain]. rewrite Nat.add_0_r. reflexivity.
+  - cbv zeta. unfold b at 2 3 4. cbn [b_per1 b_order b_knots Nat.eqb].
+    fold b. fold spans. rewrite (chain_eq l spans a Hs). reflexivity.
 Qed.
 Theorem raise_order_knots : lsorted L /\ Permutation L (l ++ repeat_list spans a) /\ (forall x, In x spans <-> In x l).
 Proof. split; [apply chain_sorted, Hs|]. split; [apply chain_perm|]. intros x. split; [apply Hsp2|apply Hsp1]. Qed.
@@ -329,5 +330,24 @@ Proof.
            (open_same_start l spans p a Hs Hsp1 Hsp2 Hp Hlen Hopen)
            (open_same_end l spans p a Hs Hsp1 Hsp2 Hp Hlen Hopen)
            nest_hyp M M2 Hn HM HM2).
+Qed.
+(* everything the end-to-end proof needs about one direction, in one statement (any amount, 0 included) *)
+Lemma raise_dir_facts :
+  b' = mkBasis (p + a) L 0 /\ sorted (@kn R NumR L) /\ (2 * (p + a) <= length L)%nat /\ (0 < length L - (p + a))%nat /\
+  (forall x, In x l <-> In x L) /\
+  @kn R NumR L (p + a - 1) = @kn R NumR l (p - 1) /\ @kn R NumR L (length L - (p + a)) = @kn R NumR l (length l - p) /\
+  (forall M side t, @order_change_matrix R NumR tol b b' = Ok M -> row_rel (Brow side l p t) (Brow side L (p + a) t) M).
+Proof.
+  split; [exact raise_order_basis|]. split; [apply sorted_kn_lsorted, chain_sorted, Hs|]. split; [exact L_len|]. split; [exact N_pos|].
+  split; [intros x; symmetry; apply (chain_values l spans a Hsp2)|].
+  split; [apply (open_same_start l spans p a Hs Hsp1 Hsp2 Hp Hlen Hopen)|].
+  split; [apply (open_same_end l spans p a Hs Hsp1 Hsp2 Hp Hlen Hopen)|].
+  intros M side t HM. rewrite raise_order_basis in HM.
+  apply (order_change_row_rel l L p (p + a) tol
+           (sorted_kn_lsorted l Hs) (sorted_kn_lsorted L (chain_sorted l spans a Hs))
+           (fun x => iff_sym (chain_values l spans a Hsp2 x)) Hp ltac:(lia) Hlen L_len Htol N_pos
+           (open_same_start l spans p a Hs Hsp1 Hsp2 Hp Hlen Hopen)
+           (open_same_end l spans p a Hs Hsp1 Hsp2 Hp Hlen Hopen)
+           nest_hyp M side t HM).
 Qed.
 End RaiseOrder.
